@@ -48,6 +48,8 @@ pub enum Op {
     /// any order: keyed items behind plain ones, keys at the ends of the symbol value range, repeated keys
     MakeMixedList(Vec<(usize, Option<u64>)>),
     MergeSymbols(u64, u64, Option<u64>),
+    /// BasicGarnishData::push_object_to_data_block: a whole value graph handed over as a BasicObject
+    PushObject(Val),
     /// merge_to_symbol_list of two earlier values that are symbols or symbol lists (any lengths, either order)
     MergeEarlier(usize, usize),
     PushRegister(usize),
@@ -478,7 +480,7 @@ fn apply<D: SimData>(d: &mut D, m: &mut Model, op: &Op, out: &mut Outcome) -> Ap
             out.probe("conversion-added-value");
             added!(addr, got)
         }
-        Op::PushCustom | Op::PushExprSymbol(_, _) => return basic_only(d, m, op),
+        Op::PushCustom | Op::PushExprSymbol(_, _) | Op::PushObject(_) => return basic_only(d, m, op),
     }
     Applied::Done
 }
@@ -491,6 +493,17 @@ fn basic_only<D: SimData>(d: &mut D, m: &mut Model, op: &Op) -> Applied {
     };
     let Some(b) = any.downcast_mut::<BasicW>() else { return Applied::Skipped };
     match op {
+        Op::PushObject(v) => {
+            let Some(obj) = to_object(v) else { return Applied::Skipped };
+            match b.push_object_to_data_block(obj) {
+                Ok(addr) => {
+                    m.remember(addr, v.clone());
+                    Applied::Done
+                }
+                Err(e) if store_full(&e) => Applied::Refused,
+                Err(e) => Applied::Violation("C15.op-failed".into(), format!("push_object_to_data_block: {:?}", crate::world::short_err(&format!("{:?}", e)))),
+            }
+        }
         Op::PushCustom => match b.push_to_custom_data_block(()) {
             Ok(i) => {
                 if i != m.custom {
@@ -517,6 +530,43 @@ fn basic_only<D: SimData>(d: &mut D, m: &mut Model, op: &Op) -> Applied {
         }
         _ => Applied::Skipped,
     }
+}
+
+fn to_object(v: &Val) -> Option<garnish_lang_simple_data::BasicObject<()>> {
+    use garnish_lang_simple_data::BasicObject as O;
+    let b = |v: &Val| to_object(v).map(Box::new);
+    Some(match v {
+        Val::Unit => O::Unit,
+        Val::True => O::True,
+        Val::False => O::False,
+        Val::Int(i) => O::Number(SimpleNumber::Integer(*i)),
+        Val::Float(f) => O::Number(SimpleNumber::Float(f64::from_bits(*f))),
+        Val::Type(t) => O::Type(type_from_u8(*t)),
+        Val::Char(c) => O::Char(*c),
+        Val::Byte(x) => O::Byte(*x),
+        Val::Sym(s) => O::Symbol(*s),
+        Val::SymList(parts) => O::SymbolList(
+            parts
+                .iter()
+                .map(|p| match p {
+                    SymPart::Sym(s) => garnish_lang_traits::SymbolListPart::Symbol(*s),
+                    SymPart::Int(i) => garnish_lang_traits::SymbolListPart::Number(SimpleNumber::Integer(*i)),
+                    SymPart::Float(f) => garnish_lang_traits::SymbolListPart::Number(SimpleNumber::Float(f64::from_bits(*f))),
+                })
+                .collect(),
+        ),
+        Val::Expr(e) => O::Expression(*e),
+        Val::External(e) => O::External(*e),
+        Val::Text(t) => O::CharList(t.clone()),
+        Val::Bytes(x) => O::ByteList(x.clone()),
+        Val::Pair(l, r) => O::Pair(b(l)?, b(r)?),
+        Val::Range(l, r) => O::Range(b(l)?, b(r)?),
+        Val::Slice(l, r) => O::Slice(b(l)?, b(r)?),
+        Val::Partial(l, r) => O::Partial(b(l)?, b(r)?),
+        Val::Concat(l, r) => O::Concatenation(b(l)?, b(r)?),
+        Val::List(items) => O::List(items.iter().map(|i| to_object(i).map(Box::new)).collect::<Option<Vec<_>>>()?),
+        _ => return None,
+    })
 }
 
 fn as_any<D: SimData>(d: &mut D) -> Option<&mut dyn std::any::Any> {
@@ -883,7 +933,14 @@ fn gen_op(rng: &mut Rng, basic: bool) -> Op {
         }
         25 => {
             if basic {
-                if rng.chance(1, 2) {
+                if rng.chance(1, 3) {
+                    let mut v = crate::c19::random_value(rng, 2);
+                    if rng.chance(1, 4) {
+                        // text with multi-byte characters somewhere in the graph
+                        v = Val::pair(v, Val::text(*rng.pick(&["h\u{e9}llo", "\u{65e5}\u{672c}", "x\u{1f600}"])));
+                    }
+                    Op::PushObject(v)
+                } else if rng.chance(1, 2) {
                     Op::PushCustom
                 } else {
                     Op::PushExprSymbol(symbol_value(&format!("e{}", rng.below(12))), rng.below(9))
